@@ -247,6 +247,8 @@ class ModelClient:
             "save_conformalization": save_conformalization,
         }
         model_settings.update(model_parameters)
+        # what gets persisted is decided by save_output alone, not by a model parameter that happens to have the same name
+        model_settings["save_conformalization"] = save_conformalization
 
         LOG.info("Getting config: %s", election_id)
         config_handler = ConfigHandler(
